@@ -25,7 +25,7 @@ ASSUMPTIONS = ["differential oracle against the unrestricted run of the same tre
 
 
 def plan(tier, seed):
-    ntrees = 4 if tier == "quick" else 100
+    ntrees = 10 if tier == "quick" else 150
     jobs = []
     for t in range(ntrees):
         for part in range(8):
